@@ -48,7 +48,8 @@ def gen_cases(tier, seed):
     for i in range(4 if q else 40):
         yield "cli_privkey_text", {"k": hex(rng.randrange(1, N)), "salt": rng.getrandbits(32)}
     # public key derivation
-    ks = keys_boundary() + [rng.randrange(1, N) for _ in range(150 if q else 3000)]
+    from .common import keys_short_coord
+    ks = keys_boundary() + keys_short_coord() + [rng.randrange(1, N) for _ in range(150 if q else 3000)]
     for k in ks:
         yield "pubkey", {"k": hex(k)}
     # private key refusal
